@@ -109,6 +109,8 @@ class Prop(object):
             exp.append(res)
             self._cases.append((required, pats, asts, depth, priority, alphabet, res))
             ctx.count("mms:" + res.split()[0])
+        # the greedy model's answer per case: needed by the F5 discriminator (a failure is F5's only if real == greedy model)
+        self._model = ctx.driver.run(lines) if (lines and ctx.driver.available()) else []
         ctx.diff("re make_matching_sequence model (greedy queue search as written) == real", lines, exp)
 
     def findings(self, ctx):
@@ -134,14 +136,16 @@ class Prop(object):
             else:
                 ctx.notes.append("F5 replay no longer fails (%s)" % res)
         budget = ctx.n(400, 6000)
-        for required, pats, asts, depth, priority, alphabet, res in getattr(self, "_cases", [])[:budget]:
+        model = getattr(self, "_model", [])
+        for ci, (required, pats, asts, depth, priority, alphabet, res) in enumerate(getattr(self, "_cases", [])[:budget]):
             if len(alphabet) > 5:
                 continue  # reference search over the full data-unit alphabet is done in the thorough tier only
             c = classify(required, pats, asts, depth, priority, alphabet, res)
             if c is None:
                 continue
-            if c["kind"] in ("false-impossible", "not-shortest") and f5:
-                # discriminator: the correspondence already showed real == greedy model on this input
+            if c["kind"] in ("false-impossible", "not-shortest") and f5 and ci < len(model) and model[ci] == res:
+                # discriminator: on THIS input the real result is exactly the greedy model's (the recorded defect);
+                # an incomplete or longer answer that the greedy search as written would not give is a new violation
                 n_f5 += 1
                 sample = sample or {"required": required, "patterns": pats, "depth": depth, "result": res, "why": c["why"]}
                 continue
@@ -154,13 +158,24 @@ class Prop(object):
 
     def search(self, ctx):
         rng = ctx.rng("search")
+        pending = []   # incomplete / longer answers: F5's only when the greedy model gives the same answer
         for _ in range(ctx.n(3000, 30000)):
             required, pats, asts, depth, priority = gen_case(rng)
             res = real_mms(required, pats, depth, priority)
             c = classify(required, pats, asts, depth, priority, ["a", "b", "c"], res)
-            if c is not None and c["kind"] in ("unsound", "crash"):
-                return {"required": required, "patterns": pats, "depth_limit": depth, "priority": priority,
-                        "result": res, "kind": c["kind"], "why": c["why"]}
+            if c is None:
+                continue
+            cand = {"required": required, "patterns": pats, "depth_limit": depth, "priority": priority,
+                    "result": res, "kind": c["kind"], "why": c["why"]}
+            if c["kind"] in ("unsound", "crash"):
+                return cand
+            pending.append((line_for(required, pats, depth, priority), res, cand))
+        if pending and ctx.driver.available():
+            got = ctx.driver.run([p[0] for p in pending])
+            for (line, res, cand), g in zip(pending, got):
+                if g != res:
+                    cand["why"] += " (and the greedy search as written would answer %s: not the recorded finding F5)" % g
+                    return cand
         return None
 
     def replay(self, ctx, path):
